@@ -208,7 +208,7 @@ func (fm *FileModel) CompareRejects(w *World, m *skel.Method, field string, exp 
 			if a.used || a.r.Kind != e.Kind {
 				continue
 			}
-			if e.Atom != nil && a.atom != e.Atom {
+			if e.Atom != nil && !w.sameAtom(a.atom, e.Atom) {
 				continue
 			}
 			if e.Kind == "null" && len(a.r.Loops) != e.Depth {
@@ -285,6 +285,22 @@ func (fm *FileModel) CompareRejects(w *World, m *skel.Method, field string, exp 
 		}
 	}
 	return issues
+}
+
+// sameAtom: the same symbolic value, or two numbers this world decided to be equal.
+func (w *World) sameAtom(a, b *absint.Atom) bool {
+	if a == b {
+		return true
+	}
+	if a == nil || b == nil || w == nil {
+		return false
+	}
+	x, y := a.ID, b.ID
+	if x > y {
+		x, y = y, x
+	}
+	v, ok := w.Facts[fmt.Sprintf("ord:%d:%d", x, y)]
+	return ok && v == 1
 }
 
 func siteOf(h *absint.Hole) string {
